@@ -277,63 +277,128 @@ func ruleSkipOrder(p *Prog, r *RuleResult) {
 			r.ok(key+" is never decoded", p.IPos(st))
 		}
 	}
-	// (c) Reader.processBlock repeats only when every task was skipped
+	// (c) Reader.processBlock repeats only when every task was skipped. The comparison skipCount ==/!= nbTasks
+	// decides the loop either directly (if ... break) or through a loop flag (for repeat { ...; repeat = a == b }).
 	pb := a.s.parent
 	pname := p.FnName(pb)
 	refill := false
-	for _, b := range pb.Blocks {
-		ifi := blockIf(b)
-		if ifi == nil {
-			continue
+	scanF, scanCall := scanFunction(p, a.s)
+	isSkipCountIn := func(fn *ssa.Function, v ssa.Value) bool {
+		ph, ok := v.(*ssa.Phi)
+		if !ok {
+			return false
 		}
-		atom, pos := condAtom(ifi.Cond)
-		bo, ok := atom.(*ssa.BinOp)
-		if !ok || (bo.Op != token.EQL && bo.Op != token.NEQ) {
-			continue
-		}
-		isSkipCount := func(v ssa.Value) bool {
-			ph, ok := v.(*ssa.Phi)
-			if !ok {
-				return false
-			}
-			for _, e := range ph.Edges {
-				if add, ok := e.(*ssa.BinOp); ok && add.Op == token.ADD {
-					if c, ok := constInt(add.Y); ok && c == 1 {
-						// the increment sits on the skipped == true edge
-						for _, bb := range pb.Blocks {
-							if i2 := blockIf(bb); i2 != nil {
-								at, ps := condAtom(i2.Cond)
-								if fv := fieldVarOfLoad(at); fv != nil && fv.Name() == "skipped" {
-									if edgeDominates(pb, edge{bb, succFor(ps, true)}, add.Block()) {
-										return true
-									}
+		for _, e := range ph.Edges {
+			if add, ok := e.(*ssa.BinOp); ok && add.Op == token.ADD {
+				if c, ok := constInt(add.Y); ok && c == 1 {
+					for _, bb := range fn.Blocks {
+						if i2 := blockIf(bb); i2 != nil {
+							at, ps := condAtom(i2.Cond)
+							if fv := fieldVarOfLoad(at); fv != nil && fv.Name() == "skipped" {
+								if edgeDominates(fn, edge{bb, succFor(ps, true)}, add.Block()) {
+									return true
 								}
 							}
 						}
 					}
 				}
 			}
-			return false
 		}
-		if !isSkipCount(bo.X) && !isSkipCount(bo.Y) {
-			continue
+		return false
+	}
+	isSkipCount := func(v ssa.Value) bool {
+		if isSkipCountIn(pb, v) {
+			return true
 		}
-		eq := b.Succs[succFor(pos, bo.Op == token.EQL)]
-		ne := b.Succs[succFor(pos, bo.Op != token.EQL)]
-		reachesGo := func(from *ssa.BasicBlock) bool {
-			rs := reach(from, nil, nil)
-			for _, g := range a.s.gos {
-				if rs[g.Block()] {
-					return true
+		// result of a scan helper: the corresponding return operand is a skip counter in the helper
+		if ex, ok := v.(*ssa.Extract); ok && scanCall != nil && ex.Tuple == ssa.Value(scanCall) {
+			okAll, n := true, 0
+			for _, b := range scanF.Blocks {
+				if ret, ok := b.Instrs[len(b.Instrs)-1].(*ssa.Return); ok && b != scanF.Recover && ex.Index < len(ret.Results) {
+					n++
+					if !isSkipCountIn(scanF, ret.Results[ex.Index]) {
+						if c, isC := ret.Results[ex.Index].(*ssa.Const); !isC || c.Value == nil {
+							okAll = false
+						}
+					}
 				}
 			}
-			return false
+			return okAll && n > 0
 		}
-		if reachesGo(eq) && !reachesGo(ne) {
-			refill = true
-			r.ok(pname+" repeats the batch exactly when all tasks were skipped", p.IPos(ifi))
-		}
+		return false
 	}
+	reachesGo := func(from *ssa.BasicBlock) bool {
+		rs := reach(from, nil, nil)
+		for _, g := range a.s.gos {
+			if rs[g.Block()] {
+				return true
+			}
+		}
+		return false
+	}
+	eachInstr(pb, func(i ssa.Instruction) {
+		bo, ok := i.(*ssa.BinOp)
+		if !ok || (bo.Op != token.EQL && bo.Op != token.NEQ) {
+			return
+		}
+		if !isSkipCount(bo.X) && !isSkipCount(bo.Y) {
+			return
+		}
+		// follow the comparison to the If it decides (directly, through !, or through a loop-flag phi)
+		var visit func(v ssa.Value, pos bool, d int)
+		seen := map[ssa.Value]bool{}
+		visit = func(v ssa.Value, pos bool, d int) {
+			if d > 4 || seen[v] {
+				return
+			}
+			seen[v] = true
+			for _, ref := range *v.Referrers() {
+				switch x := ref.(type) {
+				case *ssa.If:
+					if x.Cond != v {
+						continue
+					}
+					eqTrue := (bo.Op == token.EQL) == pos // v true <=> all skipped
+					ipos := true
+					var allSkipped, notAll *ssa.BasicBlock
+					if eqTrue == ipos {
+						allSkipped, notAll = x.Block().Succs[0], x.Block().Succs[1]
+					} else {
+						allSkipped, notAll = x.Block().Succs[1], x.Block().Succs[0]
+					}
+					if reachesGo(allSkipped) && !reachesGo(notAll) {
+						refill = true
+						r.ok(pname+" repeats the batch exactly when all tasks were skipped", p.IPos(x))
+					}
+				case *ssa.UnOp:
+					if x.Op == token.NOT {
+						visit(x, !pos, d+1)
+					}
+				case *ssa.BinOp:
+					// v == true / v == false / v != true ...
+					if x.Op == token.EQL || x.Op == token.NEQ {
+						var c *ssa.Const
+						if cc, ok := x.Y.(*ssa.Const); ok && x.X == v {
+							c = cc
+						} else if cc, ok := x.X.(*ssa.Const); ok && x.Y == v {
+							c = cc
+						}
+						if c != nil && c.Value != nil && isBool(c.Type()) {
+							same := (c.Value.String() == "true") == (x.Op == token.EQL)
+							if same {
+								visit(x, pos, d+1)
+							} else {
+								visit(x, !pos, d+1)
+							}
+						}
+					}
+				case *ssa.Phi:
+					visit(x, pos, d+1)
+				}
+			}
+		}
+		visit(bo, true, 0)
+	})
 	if !refill {
 		r.fail(pname+"#refill-all-skipped", p.Pos(pb.Pos()), "Reader.processBlock does not repeat the batch when (and only when) every task was skipped: a range starting beyond the first batch reads as end of stream, or decoded batches are dropped")
 	}
